@@ -63,7 +63,9 @@ def run(ctx):
                trivial=not bad and f["kind"] == "Closure")
     if drop:
         cs = [mir.callee_decl(t) for _, t in mir.calls(drop)]
-        ok = cs == ["writer::ShapeWriter::<T>::finalize"] and not any(
+        # drop calls finalize once and at most looks at / discards its result (no unwrap, no expect, nothing else)
+        rest = [c for c in cs if c != "writer::ShapeWriter::<T>::finalize"]
+        ok = cs.count("writer::ShapeWriter::<T>::finalize") == 1 and all(c in ("std::result::Result::<T, E>::is_err", "std::result::Result::<T, E>::is_ok", "std::result::Result::<T, E>::ok", "std::result::Result::<T, E>::err", "std::mem::drop") for c in rest) and not any(
             b["term"]["k"] == "assert" for b in drop["blocks"] if not b["cleanup"])
         ctx.ob("C12.nopanic", "Drop::drop body", ok, "drop calls %s" % cs, site=ctx.site_of(F, drop["def"]),
                key="C12.nopanic|drop-body")
